@@ -289,20 +289,37 @@ struct EngineOut {
     plans: Vec<String>,
 }
 
+struct MultiOut {
+    rows: Vec<BTreeSet<Vec<u32>>>,
+    plans: Vec<String>,
+}
+
 fn run_engine(case: &Case, strat: Strat, no_decomp: bool, threads: usize) -> Result<EngineOut, String> {
-    let f = || -> EngineOut {
+    let mut m = run_engine_multi(std::slice::from_ref(case), strat, no_decomp, threads)?;
+    Ok(EngineOut { rows: m.rows.pop().unwrap(), plans: m.plans })
+}
+
+/// All `cases` share the tables of `cases[0]`; every case is one rule with its own output table;
+/// all rules are built into ONE RuleSet and run by ONE `run_rule_set` (so trie roots / cached
+/// trie nodes are shared across the rules' plans, as in one iteration of an egglog ruleset).
+fn run_engine_multi(cases: &[Case], strat: Strat, no_decomp: bool, threads: usize) -> Result<MultiOut, String> {
+    let f = || -> MultiOut {
+        let tables = &cases[0].tables;
         let mut db = Database::default();
         let keep_old = || -> Box<egglog_core_relations::MergeFn> { Box::new(|_, _, _, _| false) };
         let mut tids = Vec::new();
-        for t in &case.tables {
+        for t in tables {
             let sort_by = if t.sorted { Some(ColumnId::from_usize(t.arity - 1)) } else { None };
             let tbl = SortedWritesTable::new(t.n_keys, t.arity, sort_by, vec![], keep_old());
             tids.push(db.add_table(tbl, std::iter::empty(), std::iter::empty()));
         }
-        let out_arity = case.out.len() + 1;
-        let out_tbl = SortedWritesTable::new(out_arity, out_arity, None, vec![], keep_old());
-        let out_id = db.add_table(out_tbl, std::iter::empty(), std::iter::empty());
-        for (t, id) in case.tables.iter().zip(tids.iter()) {
+        let mut out_ids = Vec::new();
+        for case in cases {
+            let out_arity = case.out.len() + 1;
+            let out_tbl = SortedWritesTable::new(out_arity, out_arity, None, vec![], keep_old());
+            out_ids.push(db.add_table(out_tbl, std::iter::empty(), std::iter::empty()));
+        }
+        for (t, id) in tables.iter().zip(tids.iter()) {
             if t.sorted {
                 // rows arrive in batches of increasing sort value (the timestamp discipline)
                 let mut vals: Vec<u32> = t.rows.iter().map(|r| r[t.arity - 1]).collect();
@@ -331,32 +348,34 @@ fn run_engine(case: &Case, strat: Strat, no_decomp: bool, threads: usize) -> Res
         egglog_core_relations::verif_plan_sink_start();
         let rule_set = {
             let mut rsb = RuleSetBuilder::new(&mut db);
-            let mut qb = rsb.new_rule();
-            qb.set_plan_strategy(strat.engine());
-            qb.set_no_decomp(no_decomp);
-            let vars: Vec<_> = (0..case.nvars).map(|_| qb.new_var()).collect();
-            for (i, v) in vars.iter().enumerate() {
-                assert_eq!(v.index(), i);
+            for (ci, case) in cases.iter().enumerate() {
+                let mut qb = rsb.new_rule();
+                qb.set_plan_strategy(strat.engine());
+                qb.set_no_decomp(no_decomp);
+                let vars: Vec<_> = (0..case.nvars).map(|_| qb.new_var()).collect();
+                for (i, v) in vars.iter().enumerate() {
+                    assert_eq!(v.index(), i);
+                }
+                for a in &case.atoms {
+                    let entries: Vec<QueryEntry> = a
+                        .args
+                        .iter()
+                        .map(|g| match g {
+                            Arg::Var(x) => vars[*x].into(),
+                            Arg::Const(k) => Value::new(*k).into(),
+                        })
+                        .collect();
+                    let cs: Vec<Constraint> = a.cs.iter().map(|c| c.engine()).collect();
+                    qb.add_atom(tids[a.table], &entries, cs.iter()).expect("add_atom");
+                }
+                let mut rb = qb.build();
+                let mut row: Vec<QueryEntry> = vec![Value::new(1).into()];
+                for x in &case.out {
+                    row.push(vars[*x].into());
+                }
+                rb.insert(out_ids[ci], &row).expect("insert");
+                rb.build_with_description(format!("rule{ci}"));
             }
-            for a in &case.atoms {
-                let entries: Vec<QueryEntry> = a
-                    .args
-                    .iter()
-                    .map(|g| match g {
-                        Arg::Var(x) => vars[*x].into(),
-                        Arg::Const(k) => Value::new(*k).into(),
-                    })
-                    .collect();
-                let cs: Vec<Constraint> = a.cs.iter().map(|c| c.engine()).collect();
-                qb.add_atom(tids[a.table], &entries, cs.iter()).expect("add_atom");
-            }
-            let mut rb = qb.build();
-            let mut row: Vec<QueryEntry> = vec![Value::new(1).into()];
-            for x in &case.out {
-                row.push(vars[*x].into());
-            }
-            rb.insert(out_id, &row).expect("insert");
-            rb.build();
             rsb.build()
         };
         #[cfg(egglog_verif)]
@@ -364,11 +383,14 @@ fn run_engine(case: &Case, strat: Strat, no_decomp: bool, threads: usize) -> Res
         #[cfg(not(egglog_verif))]
         let plans = Vec::new();
         db.run_rule_set(&rule_set, ReportLevel::TimeOnly, None);
-        let tbl = db.get_table(out_id);
-        let all = tbl.all();
-        let scanned = tbl.scan(all.as_ref());
-        let rows = scanned.iter().map(|(_, row)| row[1..].iter().map(|v| v.rep()).collect::<Vec<u32>>()).collect();
-        EngineOut { rows, plans }
+        let mut rows = Vec::new();
+        for out_id in &out_ids {
+            let tbl = db.get_table(*out_id);
+            let all = tbl.all();
+            let scanned = tbl.scan(all.as_ref());
+            rows.push(scanned.iter().map(|(_, row)| row[1..].iter().map(|v| v.rep()).collect::<Vec<u32>>()).collect());
+        }
+        MultiOut { rows, plans }
     };
     let res = std::panic::catch_unwind(std::panic::AssertUnwindSafe(|| {
         if threads <= 1 {
@@ -387,6 +409,167 @@ fn run_engine(case: &Case, strat: Strat, no_decomp: bool, threads: usize) -> Res
             "panic".to_string()
         }
     })
+}
+
+// ------------------------------------------------------------------------------------------
+// multi-rule rule sets over shared tables with heavy join groups: several rules (or several atoms
+// of one rule) scan the SAME table on the SAME column with DIFFERENT slow constraints (different
+// repeated-variable patterns / different bounds on an unsorted column), and every join value has
+// more than 16 (often more than 32) rows, so the executor's shared trie roots and per-node child
+// caches (get_cached_trie_node) are exercised across plans.
+
+fn gen_multi(r: &mut Rng) -> Vec<Case> {
+    // table 0: the heavy relation T (arity 3 or 4, join column 0); table 1: unary S of join values;
+    // table 2: a second heavy binary relation
+    let arity = if r.chance(2, 3) { 3 } else { 4 };
+    let njoin = r.range(1, 3) as u32;
+    let mut rows: Vec<Vec<u32>> = Vec::new();
+    for v in 1..=njoin {
+        let n = *r.pick(&[18usize, 20, 24, 34, 40, 48]);
+        for _ in 0..n {
+            let z = 100 + r.below(40) as u32;
+            let y = 100 + r.below(40) as u32;
+            let mut row = match r.below(6) {
+                0 => vec![v, v, z],
+                1 => vec![v, z, z],
+                2 => vec![v, z, v],
+                3 => vec![v, v, v],
+                _ => vec![v, y, z],
+            };
+            while row.len() < arity {
+                let last = *row.last().unwrap();
+                row.push(if r.chance(1, 2) { last } else { 100 + r.below(40) as u32 });
+            }
+            rows.push(row);
+        }
+    }
+    // a few light groups too (<= 16 rows: the uncached refine path)
+    for v in (njoin + 1)..=(njoin + 2) {
+        for _ in 0..r.range(1, 6) {
+            let z = 100 + r.below(6) as u32;
+            let mut row = if r.chance(1, 2) { vec![v, v, z] } else { vec![v, z, z] };
+            while row.len() < arity {
+                row.push(z);
+            }
+            rows.push(row);
+        }
+    }
+    let mut seen = HashSet::new();
+    rows.retain(|row| seen.insert(row.clone()));
+    let svals: Vec<Vec<u32>> = (1..=(njoin + 2)).filter(|_| r.chance(5, 6)).map(|v| vec![v]).collect();
+    let mut brow: Vec<Vec<u32>> = Vec::new();
+    for v in 1..=njoin {
+        for k in 0..r.range(17, 36) {
+            brow.push(vec![v, 100 + k as u32]);
+        }
+    }
+    let tables = vec![
+        TableD { arity, n_keys: arity, sorted: false, rows },
+        TableD { arity: 1, n_keys: 1, sorted: false, rows: svals },
+        TableD { arity: 2, n_keys: 2, sorted: false, rows: brow },
+    ];
+    // an atom over T: join variable 0 in column 0, the rest a random repeated-variable pattern
+    let pattern = |r: &mut Rng, base: usize| -> (Vec<Arg>, usize) {
+        // returns args and the number of variables used beyond `base`
+        let mut args = vec![Arg::Var(0)];
+        let mut fresh = 0usize;
+        for _c in 1..arity {
+            let k = r.below(10);
+            if k < 3 {
+                args.push(Arg::Var(0));
+            } else if k < 6 && fresh > 0 {
+                args.push(Arg::Var(base + r.below(fresh)));
+            } else {
+                args.push(Arg::Var(base + fresh));
+                fresh += 1;
+            }
+        }
+        (args, fresh)
+    };
+    let nrules = r.range(2, 4);
+    let mut cases = Vec::new();
+    for _ in 0..nrules {
+        let mut atoms = Vec::new();
+        let mut nvars = 1usize;
+        let n_t_atoms = if r.chance(1, 3) { 2 } else { 1 };
+        for _ in 0..n_t_atoms {
+            let (args, fresh) = pattern(r, nvars);
+            nvars += fresh;
+            let mut cs = Vec::new();
+            if r.chance(1, 3) {
+                // a bound on an unsorted column: a slow constraint with a rule-specific constant
+                let c = r.range(1, arity - 1);
+                let k = 100 + r.below(40) as u32;
+                cs.push(if r.chance(1, 2) { Cs::LtConst(c, k) } else { Cs::GeConst(c, k) });
+            }
+            atoms.push(AtomD { table: 0, args, cs });
+        }
+        match r.below(4) {
+            0 => {}
+            1 | 2 => atoms.push(AtomD { table: 1, args: vec![Arg::Var(0)], cs: vec![] }),
+            _ => {
+                atoms.push(AtomD { table: 2, args: vec![Arg::Var(0), Arg::Var(nvars)], cs: vec![] });
+                nvars += 1;
+            }
+        }
+        if atoms.len() == 1 || r.chance(1, 2) {
+            // make sure the join variable is intersected across two atoms
+            atoms.push(AtomD { table: 1, args: vec![Arg::Var(0)], cs: vec![] });
+        }
+        if r.chance(1, 2) {
+            atoms.reverse();
+        }
+        let mut out: Vec<usize> = (0..nvars).filter(|_| r.chance(4, 5)).collect();
+        out.truncate(6);
+        cases.push(Case { tables: tables.clone(), atoms, nvars, out, shape: "multi".into(), dist: "heavy-groups".into() });
+    }
+    cases
+}
+
+/// the same rule set as egglog text (relations over i64, one ruleset, one `(run 1)`); constraints
+/// on columns are written as primitive guards
+fn multi_text(cases: &[Case], no_decomp: bool) -> String {
+    let mut s = String::new();
+    for (i, t) in cases[0].tables.iter().enumerate() {
+        s.push_str(&format!("(relation R{i} ({}))\n", vec!["i64"; t.arity].join(" ")));
+    }
+    for (k, c) in cases.iter().enumerate() {
+        s.push_str(&format!("(relation Out{k} ({}))\n", vec!["i64"; c.out.len().max(1)].join(" ")));
+    }
+    for (i, t) in cases[0].tables.iter().enumerate() {
+        for row in &t.rows {
+            let v: Vec<String> = row.iter().map(|x| x.to_string()).collect();
+            s.push_str(&format!("(R{i} {})\n", v.join(" ")));
+        }
+    }
+    for (k, c) in cases.iter().enumerate() {
+        let mut body = Vec::new();
+        for a in &c.atoms {
+            let v: Vec<String> = a
+                .args
+                .iter()
+                .map(|g| match g {
+                    Arg::Var(x) => format!("v{x}"),
+                    Arg::Const(k) => k.to_string(),
+                })
+                .collect();
+            body.push(format!("(R{} {})", a.table, v.join(" ")));
+            for cs in &a.cs {
+                let (c, kk, ge) = match cs {
+                    Cs::LtConst(c, kk) => (*c, *kk, false),
+                    Cs::GeConst(c, kk) => (*c, *kk, true),
+                    _ => continue,
+                };
+                if let Arg::Var(x) = &a.args[c] {
+                    body.push(if ge { format!("(>= v{x} {kk})") } else { format!("(< v{x} {kk})") });
+                }
+            }
+        }
+        let outs: Vec<String> = if c.out.is_empty() { vec!["0".to_string()] } else { c.out.iter().map(|x| format!("v{x}")).collect() };
+        s.push_str(&format!("(rule ({}) ((Out{k} {})){})\n", body.join(" "), outs.join(" "), if no_decomp { " :no-decomp" } else { "" }));
+    }
+    s.push_str("(run 1)\n");
+    s
 }
 
 // ------------------------------------------------------------------------------------------
@@ -874,6 +1057,10 @@ struct Stats {
     text_plan_kind_hist: BTreeMap<String, usize>,
     text_stage_kind_hist: BTreeMap<String, usize>,
     resort_candidates: usize,
+    multi_rule_sets: usize,
+    multi_rules: usize,
+    multi_nontrivial: usize,
+    multi_heavy_groups_hist: BTreeMap<String, usize>,
 }
 
 fn bump(h: &mut BTreeMap<String, usize>, k: &str) {
@@ -1004,6 +1191,213 @@ fn api_case(
     }
 }
 
+/// one multi-rule rule set through the API under the given configurations
+#[allow(clippy::too_many_arguments)]
+fn multi_api(
+    cases: &[Case],
+    idx: usize,
+    st: &mut Stats,
+    w: &mut CaseWriter,
+    viols: &mut Vec<Viol>,
+    seen_plans: &mut HashSet<String>,
+    api_only_count: &mut usize,
+    only: Option<(Strat, bool, usize)>,
+) {
+    let mut wants = Vec::new();
+    for c in cases {
+        let mut budget = 4_000_000u64;
+        match reference(c, &mut budget) {
+            Some(x) => wants.push(x),
+            None => {
+                st.skipped_budget += 1;
+                return;
+            }
+        }
+    }
+    st.multi_rule_sets += 1;
+    if wants.iter().filter(|w| !w.is_empty()).count() >= 2 {
+        st.multi_nontrivial += 1;
+    }
+    st.multi_rules += cases.len();
+    // rows per join value of the heavy table
+    let mut per: BTreeMap<u32, usize> = BTreeMap::new();
+    for r in &cases[0].tables[0].rows {
+        *per.entry(r[0]).or_insert(0) += 1;
+    }
+    let mx = per.values().copied().max().unwrap_or(0);
+    bump(&mut st.multi_heavy_groups_hist, if mx > 32 { "max group > 32 rows" } else if mx > 16 { "max group 17-32 rows" } else { "max group <= 16 rows" });
+    let configs: Vec<(Strat, bool, usize)> = match only {
+        Some(c) => vec![c],
+        None => vec![
+            (Strat::Gj, false, if idx % 3 == 0 { 4 } else { 1 }),
+            (Strat::Gj, true, if idx % 3 == 1 { 4 } else { 1 }),
+            (Strat::MinCover, true, 1),
+            (Strat::PureSize, true, 1),
+        ],
+    };
+    for (s, nd, threads) in configs {
+        st.engine_runs += 1;
+        bump(&mut st.config_hist, &format!("multi:{}{}{}", s.name(), if nd { "/no-decomp" } else { "/decomp" }, if threads > 1 { "/threads" } else { "" }));
+        let in_scope = s == Strat::Gj;
+        let input = json!({"path": "api-multi", "cases": cases.iter().map(|c| c.json()).collect::<Vec<_>>(), "strategy": s.name(), "no_decomp": nd, "threads": threads});
+        let key = format!("c02-api-multi-{}-{}", s.name(), if nd { "nodecomp" } else { "decomp" });
+        let mut push = |v: Viol, viols: &mut Vec<Viol>| {
+            if in_scope {
+                viols.push(v);
+            } else {
+                *api_only_count += 1;
+            }
+        };
+        match run_engine_multi(cases, s, nd, threads) {
+            Err(msg) => push(Viol { what: format!("engine panicked running a rule set of {} rules: {}", cases.len(), msg.chars().take(200).collect::<String>()), key: format!("{key}-panic"), input }, viols),
+            Ok(out) => {
+                if out.plans.len() == cases.len() {
+                    for (c, pj) in cases.iter().zip(out.plans.iter()) {
+                        let p: J = serde_json::from_str(pj).expect("plan json");
+                        bump(&mut st.plan_kind_hist, &format!("{}:{}", s.name(), p["kind"].as_str().unwrap_or("?")));
+                        bump(&mut st.bags_hist, &p["bags"].to_string());
+                        plan_stage_kinds(&p, &mut st.stage_kind_hist);
+                        match plan_coq(&p) {
+                            Some(pc) => {
+                                let q = c.query_coq();
+                                if seen_plans.insert(format!("{q}|{pc}")) {
+                                    w.push(format!("CPlan {} {}", q, pc));
+                                    st.plans_certified += 1;
+                                }
+                            }
+                            None => {
+                                st.plans_uncertified += 1;
+                                bump(&mut st.uncertified_why, &format!("{}:{} bags", p["kind"].as_str().unwrap_or("?"), p["bags"]));
+                            }
+                        }
+                    }
+                }
+                for (k, (got, want)) in out.rows.iter().zip(wants.iter()).enumerate() {
+                    if got != want {
+                        let extra: Vec<&Vec<u32>> = got.difference(want).take(3).collect();
+                        let missing: Vec<&Vec<u32>> = want.difference(got).take(3).collect();
+                        push(
+                            Viol {
+                                what: format!(
+                                    "rule {k} of a {}-rule rule set (one run_rule_set, {} {}) fired for a set of substitutions different from the matches of its body: engine {} rows, nested-loop matcher {} rows; fired-but-no-match e.g. {:?}; match-but-not-fired e.g. {:?}",
+                                    cases.len(),
+                                    s.name(),
+                                    if nd { "no-decomp" } else { "decomp" },
+                                    got.len(),
+                                    want.len(),
+                                    extra,
+                                    missing
+                                ),
+                                key: key.clone(),
+                                input: input.clone(),
+                            },
+                            viols,
+                        );
+                        break;
+                    }
+                }
+            }
+        }
+    }
+}
+
+fn read_out_i64(eg: &egglog::EGraph, name: &str) -> Result<BTreeSet<Vec<i64>>, String> {
+    let r = std::panic::catch_unwind(std::panic::AssertUnwindSafe(|| {
+        let mut rows = BTreeSet::new();
+        eg.constructor_enodes(name, |e| {
+            rows.insert(e.children.iter().map(|v| eg.value_to_base::<i64>(*v)).collect::<Vec<i64>>());
+        })
+        .map_err(|e| format!("{e}"))?;
+        Ok::<_, String>(rows)
+    }));
+    match r {
+        Ok(x) => x,
+        Err(_) => Err("panic reading table".into()),
+    }
+}
+
+/// run an egglog program with output relations Out0..Out{n-1}; compare each with the expectation
+fn text_multi_check(program: &str, expected: &[BTreeSet<Vec<i64>>], key: &str, st: &mut Stats, viols: &mut Vec<Viol>) {
+    st.text_runs += 1;
+    let input = json!({"path": "text-multi", "program": program, "expected": expected.iter().map(|s| s.iter().collect::<Vec<_>>()).collect::<Vec<_>>()});
+    let mut eg = egglog::EGraph::default();
+    // declarations and facts first, then (with the plan sink on) the rules and the run
+    let split = program.find("(rule").unwrap_or(0);
+    let (setup, rules) = program.split_at(split);
+    let (res0, _) = verif_harness::egg::step(&mut eg, setup);
+    #[cfg(egglog_verif)]
+    egglog_core_relations::verif_plan_sink_start();
+    let (res, _) = if res0.is_ok() { verif_harness::egg::step(&mut eg, rules) } else { (res0, false) };
+    #[cfg(egglog_verif)]
+    for pj in egglog_core_relations::verif_plan_sink_take() {
+        if let Ok(p) = serde_json::from_str::<J>(&pj) {
+            bump(&mut st.text_plan_kind_hist, &format!("{}:{} bags", p["kind"].as_str().unwrap_or("?"), p["bags"]));
+            plan_stage_kinds(&p, &mut st.text_stage_kind_hist);
+        }
+    }
+    if let Err(e) = res {
+        if e.contains("PANIC") || e.contains("panic") {
+            viols.push(Viol { what: format!("engine panicked on an egglog rule-set run: {}", e.chars().take(200).collect::<String>()), key: format!("{key}-panic"), input });
+        } else {
+            bump(&mut st.text_plan_kind_hist, "rejected-program");
+            if std::env::var("VERIF_DEBUG").is_ok() {
+                eprintln!("rejected: {e}\n{program}");
+            }
+        }
+        return;
+    }
+    for (k, want) in expected.iter().enumerate() {
+        match read_out_i64(&eg, &format!("Out{k}")) {
+            Err(e) => {
+                viols.push(Viol { what: format!("reading Out{k}: {e}"), key: format!("{key}-read"), input });
+                return;
+            }
+            Ok(got) => {
+                if got != *want {
+                    let extra: Vec<&Vec<i64>> = got.difference(want).take(3).collect();
+                    let missing: Vec<&Vec<i64>> = want.difference(&got).take(3).collect();
+                    viols.push(Viol {
+                        what: format!(
+                            "rule {k} of a {}-rule egglog ruleset (one (run 1)) fired for a set of substitutions different from the matches of its body: Out{k} has {} rows, nested-loop matcher {} rows; fired-but-no-match e.g. {:?}; match-but-not-fired e.g. {:?}",
+                            expected.len(),
+                            got.len(),
+                            want.len(),
+                            extra,
+                            missing
+                        ),
+                        key: key.to_string(),
+                        input,
+                    });
+                    return;
+                }
+            }
+        }
+    }
+}
+
+fn multi_text_run(cases: &[Case], no_decomp: bool, st: &mut Stats, viols: &mut Vec<Viol>) {
+    let mut expected = Vec::new();
+    for c in cases {
+        let mut budget = 4_000_000u64;
+        let Some(want) = reference(c, &mut budget) else {
+            st.skipped_budget += 1;
+            return;
+        };
+        let e: BTreeSet<Vec<i64>> = if c.out.is_empty() {
+            if want.is_empty() {
+                BTreeSet::new()
+            } else {
+                [vec![0i64]].into_iter().collect()
+            }
+        } else {
+            want.iter().map(|r| r.iter().map(|v| *v as i64).collect()).collect()
+        };
+        expected.push(e);
+    }
+    let program = multi_text(cases, no_decomp);
+    text_multi_check(&program, &expected, &format!("c02-text-multi-{}", if no_decomp { "nodecomp" } else { "decomp" }), st, viols);
+}
+
 fn main() {
     let o = verif_harness::parse_opts();
     std::process::exit(run(&o));
@@ -1032,6 +1426,10 @@ pub fn run(o: &Opts) -> i32 {
         text_plan_kind_hist: BTreeMap::new(),
         text_stage_kind_hist: BTreeMap::new(),
         resort_candidates: 0,
+        multi_rule_sets: 0,
+        multi_rules: 0,
+        multi_nontrivial: 0,
+        multi_heavy_groups_hist: BTreeMap::new(),
     };
     let mut viols: Vec<Viol> = Vec::new();
     let mut samples: Vec<J> = Vec::new();
@@ -1145,7 +1543,20 @@ pub fn run(o: &Opts) -> i32 {
 
     let replay_one = |j: &J, st: &mut Stats, w: &mut CaseWriter, viols: &mut Vec<Viol>, api_full: &mut dyn FnMut(&Case, usize, &mut Stats, &mut CaseWriter, &mut Vec<Viol>, Option<(Strat, bool, usize)>)| {
         let inp = if j.get("violation").is_some() { &j["violation"]["input"] } else if j.get("input").is_some() { &j["input"] } else { j };
-        if inp["path"] == "text" {
+        if inp["path"] == "api-multi" {
+            let cases: Vec<Case> = inp["cases"].as_array().unwrap().iter().map(Case::from_json).collect();
+            let only = inp["strategy"].as_str().map(|s| (Strat::from(s), inp["no_decomp"].as_bool().unwrap_or(false), inp["threads"].as_u64().unwrap_or(1) as usize));
+            let mut seen = HashSet::new();
+            let mut cnt = 0usize;
+            multi_api(&cases, 0, st, w, viols, &mut seen, &mut cnt, only);
+        } else if inp["path"] == "text-multi" {
+            let program = inp["program"].as_str().unwrap_or("").to_string();
+            let expected: Vec<BTreeSet<Vec<i64>>> = inp["expected"]
+                .as_array()
+                .map(|a| a.iter().map(|t| t.as_array().unwrap().iter().map(|r| r.as_array().unwrap().iter().map(|v| v.as_i64().unwrap()).collect()).collect()).collect())
+                .unwrap_or_default();
+            text_multi_check(&program, &expected, "c02-text-multi-replay", st, viols);
+        } else if inp["path"] == "text" {
             // replay of a text case: run the program and compare with the recorded expectation
             let program = inp["program"].as_str().unwrap_or("").to_string();
             let want: BTreeSet<Vec<i64>> = inp["expected_out"]
@@ -1249,6 +1660,19 @@ pub fn run(o: &Opts) -> i32 {
         }
     }
     drop(api_full);
+    if o.replay.is_none() {
+        // multi-rule rule sets over shared tables with heavy join groups (API and egglog text)
+        let n_multi = if o.thorough { 700 } else { 90 };
+        let mut seen_multi: HashSet<String> = HashSet::new();
+        for i in 0..n_multi {
+            let mut r = Rng::for_case(o.seed ^ 0x3a17, i as u64);
+            let cases = gen_multi(&mut r);
+            multi_api(&cases, i, &mut st, &mut w, &mut viols, &mut seen_multi, &mut api_only_count, None);
+            if i % 2 == 0 {
+                multi_text_run(&cases, (i / 2) % 2 == 1, &mut st, &mut viols);
+            }
+        }
+    }
     w.flush();
 
     let hist = |h: &BTreeMap<String, usize>| serde_json::to_value(h).unwrap();
@@ -1256,8 +1680,8 @@ pub fn run(o: &Opts) -> i32 {
         "sub": "plans",
         "cases": w.total,
         "shards": w.shards,
-        "distinct_nontrivial": nontrivial,
-        "rule": "conjunctive queries generated per (shape x data distribution) over 1-4 relations of arity 1-4 (all-key, functional and sorted tables), run on the real engine under 6 configurations (Gj/MinCover/PureSize x decomposition on/off, some under a 4-thread pool) and through egglog text; output table compared with a naive nested-loop matcher; a case is non-trivial iff it has >= 2 atoms and a non-empty match set; distinct by (query, database); kernel cases = dumped single-bag plans (plan_ok), a sample with the database and the engine's rows (spec matcher and stage machine must reproduce them)",
+        "distinct_nontrivial": nontrivial + st.multi_nontrivial,
+        "rule": "[multi-rule stream: rule sets of 2-4 rules (1-2 atoms each over one shared heavy table on the same column with different repeated-variable patterns / different slow bounds, joined with small tables) run by ONE run_rule_set / one (run 1), join groups of 17-48 rows, every rule's output compared with the nested-loop matcher, API + egglog text] conjunctive queries generated per (shape x data distribution) over 1-4 relations of arity 1-4 (all-key, functional and sorted tables), run on the real engine under 6 configurations (Gj/MinCover/PureSize x decomposition on/off, some under a 4-thread pool) and through egglog text; output table compared with a naive nested-loop matcher; a case is non-trivial iff it has >= 2 atoms and a non-empty match set (a multi-rule rule set: iff >= 2 of its rules have matches); distinct by (query, database); kernel cases = dumped single-bag plans (plan_ok), a sample with the database and the engine's rows (spec matcher and stage machine must reproduce them)",
         "samples": samples,
         "violations": viols.iter().take(20).map(|v| json!({"what": v.what, "key": v.key, "input": v.input})).collect::<Vec<_>>(),
         "shape_hist": hist(&st.shape_hist),
@@ -1280,6 +1704,9 @@ pub fn run(o: &Opts) -> i32 {
             "uncertified_breakdown": hist(&st.uncertified_why),
             "cases_skipped_reference_budget": st.skipped_budget,
             "plans_with_3plus_stages_on_tables_over_32_rows": st.resort_candidates,
+            "multi_rule_rule_sets": st.multi_rule_sets,
+            "multi_rule_rules": st.multi_rules,
+            "multi_rule_heavy_group_hist": hist(&st.multi_heavy_groups_hist),
             "api_only_config_disagreements": api_only_count,
             "api_only_config_samples": api_only,
             "api_only_probe_varfree_atom_slow_constraint": api_only_probe,
